@@ -29,6 +29,13 @@ def _branch(f, test_substr: str):
 P = "ELEM(property_writes.items())[1]"
 
 
+def _split_alts(e: ast.AST) -> list[str]:
+    """alternatives of an already canonical expression (conditional expressions split)"""
+    if isinstance(e, ast.IfExp):
+        return _split_alts(e.body) + _split_alts(e.orelse)
+    return [norm(e)]
+
+
 def run(repo: Repo, rep: Report, tier: str) -> None:
     ap = repo.func("PlanEntityEmitter._apply_property_writes")
     ep = repo.cls("EntityPlacer")
@@ -211,3 +218,73 @@ def run(repo: Repo, rep: Report, tier: str) -> None:
         rep.check(bool(free) or not affected, "C06-R12", f"{label}: the condition is set on entities without an enable flag as well",
                   f"{len(free)} of {len(calls12)} set_circuit_condition call(s) do not require circuit_enabled" if free else
                   f"every set_circuit_condition call requires `circuit_enabled`; {', '.join(affected[:6])} have none, so `{affected[0].lower() if affected else 'pump'}.enable = ...` is emitted without any condition", ap.loc(br))
+
+    # ---------------- R13 --------------------------------------------------------------
+    rep.rule("C06-R13", "the condition reads the signal the program named, in its own category: in every {name, type} signal dict the emitter builds for a circuit condition the "
+             "type is looked up for that very name (category helper, or the `type` entry of the table row the name came from); the constant 'virtual' is used only with a "
+             "name that is a virtual signal by construction (a literal virtual signal, or the any()/all() wildcard the lowering stored)")
+    from ..core import module_const as _mc13
+    _sig13 = repo.module("common.signals")
+    _WILD13, _AVAIL13 = set(_mc13(repo, _sig13, "WILDCARD_SIGNALS")), set(_mc13(repo, _sig13, "AVAILABLE_VIRTUAL_SIGNALS"))
+    virt_names = set(_WILD13) | set(_AVAIL13) | {"signal-0"}
+    # names that are virtual by construction through the plan: property key -> proven
+    wildcard_ok = True
+    ibc_sites = 0
+    for f13 in repo.all_funcs():
+        for n in walk_local(f13.node):
+            if isinstance(n, ast.Assign) and any(isinstance(t, ast.Attribute) and t.attr == "inline_bundle_condition" for t in n.targets) and isinstance(n.value, ast.Dict):
+                ibc_sites += 1
+                d13 = {k.value: v for k, v in zip(n.value.keys, n.value.values) if isinstance(k, ast.Constant)}
+                alts13 = canon(f13).alts(d13["signal"]) if "signal" in d13 else ["<missing>"]
+                if not all(a.startswith("'") and a.strip("'") in _WILD13 for a in alts13):
+                    wildcard_ok = False
+    pw = None
+    for m13 in ep.methods.values():
+        for n in walk_local(m13.node):
+            if isinstance(n, ast.Dict):
+                d13 = {k.value: v for k, v in zip(n.keys, n.values) if isinstance(k, ast.Constant)}
+                if "type" in d13 and isinstance(d13["type"], ast.Constant) and d13["type"].value == "inline_bundle_condition":
+                    pw = (m13, d13)
+    passthrough = pw is not None and "signal" in pw[1] and canon(pw[0]).text(pw[1]["signal"]).endswith(".inline_bundle_condition['signal']")
+    dicts13 = []
+    for f13 in repo.all_funcs():
+        if ".emission." not in f13.module.name + ".":
+            continue
+        for n in walk_local(f13.node):
+            if isinstance(n, ast.Dict) and {k.value for k in n.keys if isinstance(k, ast.Constant)} == {"name", "type"}:
+                dicts13.append((f13, n))
+    rep.floor("C06-R13", "signal dicts built by the emitter", len(dicts13), 3)
+    rep.analysed["C06-R13:lowering sites storing an inlined any()/all() condition"] = ibc_sites
+    for f13, n in dicts13:
+        c13 = canon(f13)
+        d13 = {k.value: v for k, v in zip(n.keys, n.values)}
+        n_alts = c13.alts(d13["name"])
+        t_alts = c13.alts(d13["type"])
+        bad13 = []
+        for t in t_alts:
+            if t.startswith("'"):
+                for na in n_alts:
+                    if na.startswith("'") and na.strip("'") in virt_names and t == "'virtual'":
+                        continue
+                    if t == "'virtual'" and na.endswith(".get('signal')") and wildcard_ok and passthrough and ibc_sites:
+                        continue
+                    bad13.append(f"type {t} is a constant while the name may be `{na[-70:]}`")
+                continue
+            tn = ast.parse(t, mode="eval").body
+            if isinstance(tn, ast.Call) and call_name(tn) in ("_infer_signal_type",) and tn.args:
+                arg_alts = set(_split_alts(tn.args[0]))
+                if arg_alts <= set(n_alts) or norm(tn.args[0]) == c13.text(d13["name"]):
+                    continue
+                bad13.append(f"category looked up for `{norm(tn.args[0])[-60:]}`, not for the name")
+                continue
+            if isinstance(tn, ast.Call) and call_name(tn) == "get" and tn.args and isinstance(tn.args[0], ast.Constant) and tn.args[0].value == "type":
+                row = norm(tn.func.value)
+                if any(na.startswith(row + ".get('name'") or na.startswith(row + "['name']") for na in n_alts):
+                    continue
+                bad13.append(f"type read from `{row[-60:]}`, which is not the row the name came from")
+                continue
+            bad13.append(f"type `{t[-70:]}` is not a category lookup")
+        key13 = "name=" + " | ".join(sorted(a.replace(P, "P") for a in n_alts))
+        rep.check(not bad13, "C06-R13", f"{f13.short}: signal dict {key13}",
+                  f"type alternatives {[a[-60:] for a in t_alts]}" if not bad13 else "; ".join(bad13) +
+                  ": e.g. `Signal x = (\"iron-plate\", 5); lamp.enable = x;` makes the lamp watch a virtual signal called iron-plate, which nothing ever sends", f13.loc(n))
